@@ -73,7 +73,7 @@ QUICK_SCANNER = {
     "rcdata_end_tag_name_state": "C03,C06,C09", "script_data_escaped_end_tag_name_state": "C03,C09",
     "tag_open_state": "C09", "end_tag_open_state": "C09", "bogus_comment_state": "C09", "comment_state": "C09",
     "script_data_double_escaped_state": "C09", "script_data_double_escaped_less_than_sign_state": "C09", "rcdata_state": "C09",
-    "plaintext_state": "C15", "before_attribute_name_state": "C15",
+    "plaintext_state": "C15", "before_attribute_name_state": "C15", "self_closing_start_tag_state": "C06",
 }
 
 
